@@ -1100,6 +1100,12 @@ class ClassStubs(dict):
         self.P = P
         self.cls = cls_qual
         self.skip = set(skip)
+        self.methods_only = True
+        self._explicit = set(extra or {})
+
+    def explicit(self, name):
+        """Given by the model itself (not found as a method)."""
+        return name in self._explicit
 
     def _resolve(self, name):
         if dict.__contains__(self, name):
@@ -2489,6 +2495,11 @@ def operations_model(P, R, which=None):
                 subs += [{'a': refs[2], 'b': refs[5]},
                          {'c': refs[3], 'a': refs[6]},
                          {'a': refs[4], 'b': refs[2], 'c': refs[7]}]
+                renamings = [{x: y} for x in names for y in names] + [
+                    {'a': 'b', 'b': 'a'}, {'a': 'c', 'c': 'a'},
+                    {'b': 'c', 'c': 'b'}, {'a': 'b', 'b': 'c', 'c': 'a'},
+                    {'a': 'c', 'b': 'a', 'c': 'b'}, {'a': 'c', 'b': 'c'},
+                    {'b': 'a', 'c': 'a'}, {'a': 'b', 'c': 'b'}]
                 for u in refs[2:]:
                     for d in subs:
                         obj = fresh(base)
@@ -2504,6 +2515,19 @@ def operations_model(P, R, which=None):
                         check((f, 'compose'), f'order {order}: let({d}, '
                               f'{u}) with function values', obj, ext,
                               names, out, tuple(want))
+                    # variables for variables (simultaneously: swaps,
+                    # cycles, two variables renamed to one)
+                    for d in renamings:
+                        obj = fresh(base)
+                        out, _ = call(f, obj, [dict(d), u])
+                        want = tuple(
+                            tt[u][rows.index(tuple(
+                                dict(zip(names, r))[d.get(x, x)]
+                                for x in names))]
+                            for r in rows)
+                        check((f, 'rename'), f'order {order}: let({d}, '
+                              f'{u}) with variables for variables', obj,
+                              ext, names, out, want)
                     for k in (1, 2):
                         for xs in itertools.combinations(names, k):
                             for bits in itertools.product(
@@ -2625,7 +2649,7 @@ def operations_model(P, R, which=None):
                     'operations model', str(e))
         return None
     rule_of = {'ite': 'R-OPTAB', 'quantify': 'R-ARGS', 'compose': 'R-ROLE',
-               'cofactor': 'R-ROLE', 'image': 'R-REBUILD',
+               'cofactor': 'R-ROLE', 'rename': 'R-ROLE', 'image': 'R-REBUILD',
                'preimage': 'R-REBUILD'}
     for (f, op, sub), msg in sorted(problems.items(),
                                     key=lambda kv: (kv[0][1], kv[0][2])):
@@ -3001,6 +3025,173 @@ def r_autoref_apply(P, R):
     if n is not None:
         R.floor('R-OPTAB calls of the wrapper model', n, 100)
 r_autoref_apply.NAME = 'R-OPTAB(autoref wrapper model)'
+
+
+def autoref_image_model(P, R):
+    """`dd.autoref.image` / `preimage` interpreted with everything they
+    call - the handle class, its operators, the integer manager - on
+    managers over four variables, and compared with C13 on truth tables:
+    the handle returned belongs to the manager of the operands and denotes
+    rename(exists qvars. trans /\\ source) (image) or exists qvars. trans
+    /\\ rename(target) (preimage), also for an empty `qvars` and for an
+    empty renaming; operands of two managers are refused."""
+    import itertools
+    stubs = ClassStubs(P, 'dd.bdd.BDD', extra={
+        '_request_reordering': lambda m, c, a, k: None})
+    resolver = interp.ModuleEnv(P, 'dd.autoref', stubs)
+    img = P.func('dd.autoref.image')
+    pre = P.func('dd.autoref.preimage')
+    names = ['x', 'xp', 'y', 'yp']
+    rows = list(itertools.product((False, True), repeat=4))
+    tfn = [lambda x, xp, y, yp: xp == (x and y),
+           lambda x, xp, y, yp: (xp != x) and (yp == y),
+           lambda x, xp, y, yp: x and not y,
+           lambda x, xp, y, yp: x != y,
+           lambda x, xp, y, yp: xp and not yp]
+    tts = [tuple(bool(f(*r)) for r in rows) for f in tfn]
+
+    def quant(t, qv):
+        out = []
+        for r in rows:
+            vals = []
+            for bits in itertools.product((False, True), repeat=len(qv)):
+                d = dict(zip(names, r))
+                d.update(zip(qv, bits))
+                vals.append(t[rows.index(tuple(d[n] for n in names))])
+            out.append(any(vals))
+        return tuple(out)
+
+    def ren(t, mp):
+        out = []
+        for r in rows:
+            d = dict(zip(names, r))
+            src = dict(d)
+            for old, new in mp.items():
+                src[old] = d[new]
+            out.append(t[rows.index(tuple(src[n] for n in names))])
+        return tuple(out)
+    problems = dict()
+    n = 0
+    try:
+        fcls = resolver('Function')
+        bcls = resolver('BDD')
+        for order in (['x', 'xp', 'y', 'yp'], ['y', 'yp', 'xp', 'x']):
+            base, ext = _build_manager(order, tts, range(len(tts)))
+            ref = dict()
+            for u in list(base['self._succ']) + [
+                    -x for x in base['self._succ']]:
+                ref.setdefault(_tt_of(base, u, names), u)
+            T = [ref[t] for t in tts]
+            tt = {u: _tt_of(base, u, names)
+                  for u in T + [-t for t in T] + [1, -1]}
+            lv = {v: k for k, v in enumerate(order)}
+            icases = [
+                (T[0], T[2], {'xp': 'x'}, ['x', 'y']),
+                (T[1], T[3], {'xp': 'x', 'yp': 'y'}, ['x', 'y']),
+                # nothing quantified: the renaming still applies
+                (T[4], 1, {'xp': 'x', 'yp': 'y'}, []),
+                (T[4], T[4], {'xp': 'x'}, []),
+                (T[4], -T[4], {'yp': 'y'}, set()),
+                # nothing renamed
+                (T[0], T[2], {}, ['x', 'y']),
+                (T[0], 1, {'xp': 'x'}, ['x'])]
+            pcases = [
+                (T[0], T[2], {'x': 'xp'}, ['xp']),
+                (T[1], T[3], {'x': 'xp', 'y': 'yp'}, ['xp', 'yp']),
+                (T[1], T[2], {'x': 'xp', 'y': 'yp'}, []),
+                (T[0], T[2], {}, ['x'])]
+            for f, cases in ((img, icases), (pre, pcases)):
+                prm = list(f.params)
+                for trans, other, mp, qv in cases:
+                    if f is pre and any(abs(lv[a] - lv[b]) != 1
+                                        for a, b in mp.items()):
+                        continue
+                    for foreign in (False, True):
+                        n += 1
+                        obj = _object_manager(copy.deepcopy(
+                            {k: v for k, v in base.items() if k != 'self'}))
+                        wrapper = interp.Sym('autoref manager', {
+                            '_bdd': obj, 'vars': obj.attrs['vars']})
+                        wrapper.cls = bcls
+                        second = interp.Sym('another autoref manager', {
+                            '_bdd': obj, 'vars': obj.attrs['vars']})
+                        second.cls = bcls
+
+                        def handle(u, w):
+                            h = interp.Sym('Function', {
+                                'node': u, 'bdd': w, 'manager': obj})
+                            h.cls = fcls
+                            return h
+                        env = {prm[0]: handle(trans, wrapper),
+                               prm[1]: handle(
+                                   other, second if foreign else wrapper),
+                               prm[2]: dict(mp),
+                               prm[3]: set(qv) if isinstance(qv, set)
+                               else list(qv)}
+                        if len(prm) > 4:
+                            env[prm[4]] = False
+                        out, _ = interp.run_function(
+                            f.node, env, stubs, resolver)
+                        what = (f'order {order}: {f.name}(<node {trans}>, '
+                                f'<node {other}>, {mp}, {qv})')
+                        if foreign:
+                            if out[0] != 'raise':
+                                problems.setdefault((f, 'two-managers'), (
+                                    f'{what} with operands of two '
+                                    'managers is not refused'))
+                            continue
+                        if f is img:
+                            conj = tuple(p and q for p, q in
+                                         zip(tt[trans], tt[other]))
+                            want = ren(quant(conj, list(qv)), mp)
+                        else:
+                            rt = ren(tt[other], mp)
+                            conj = tuple(p and q for p, q in
+                                         zip(tt[trans], rt))
+                            want = quant(conj, list(qv))
+                        r = out[1]
+                        if out[0] != 'return' or not isinstance(
+                                r, interp.Sym) or not r.attrs or \
+                                not isinstance(r.attrs.get('node'), int):
+                            problems.setdefault((f, 'raises'), (
+                                f'{what}: {out[0]} {out[1]!r}'))
+                            continue
+                        got = _tt_obj(obj, r.attrs['node'], names)
+                        if got != want:
+                            problems.setdefault((f, 'wrong-function'), (
+                                f'{what}: the result (node '
+                                f'{r.attrs["node"]}) denotes '
+                                + ''.join('1' if b else '0'
+                                          for b in (got or ()))
+                                + ', expected '
+                                + ''.join('1' if b else '0' for b in want)
+                                + f' (rows in the order of {names})'))
+                        elif r.attrs.get('bdd') is not wrapper:
+                            problems.setdefault((f, 'other-manager'), (
+                                f'{what}: the handle returned does not '
+                                'belong to the manager of the operands'))
+    except (interp.Unknown, KeyError) as e:
+        R.undecided('R-ARGS', 'dd.autoref.image / preimage',
+                    'wrapper model', str(e))
+        return None
+    for (f, sub), msg in sorted(problems.items(),
+                                key=lambda kv: (kv[0][0].qualname, kv[0][1])):
+        R.violation('R-ARGS', f'autoref-{sub}', f.qualname, f.name, msg,
+                    unit=f.unit.rel, line=f.lineno)
+    if not problems:
+        R.holds('R-ARGS', 'dd.autoref.image / preimage',
+                f'wrapper model ({n} calls, handles and integer manager '
+                'interpreted together): the result denotes the image / '
+                'preimage on truth tables, also with nothing quantified '
+                'or nothing renamed; operands of two managers are refused')
+    return n
+
+
+def r_autoref_image(P, R):
+    n = autoref_image_model(P, R)
+    if n is not None:
+        R.floor('R-ARGS calls of the autoref image model', n, 20)
+r_autoref_image.NAME = 'R-ARGS(autoref image model)'
 
 
 def dot_model(P, R):
